@@ -254,6 +254,7 @@ pub struct Ctx {
     stage_no: u32,
     cur_idx: u64,
     progress_fd: Option<std::fs::File>,
+    beats: u64,
 
     pub evaluations: u64,
     pub classes: BTreeMap<String, u64>,
@@ -293,6 +294,7 @@ impl Ctx {
             stage_no: 0,
             cur_idx: 0,
             progress_fd,
+            beats: 0,
             evaluations: 0,
             classes: BTreeMap::new(),
             nontrivial: BTreeSet::new(),
@@ -354,6 +356,13 @@ impl Ctx {
 
     /// progress record "stage idx beat": the beat changes while a long-running phase of the same
     /// case (shrinking) is alive, so the supervisor does not take it for a stall
+    /// keep the progress record alive during one long case (the supervisor kills silent workers)
+    pub fn heartbeat(&mut self) {
+        self.beats += 1;
+        let b = self.beats;
+        self.write_progress_beat(b);
+    }
+
     fn write_progress_beat(&mut self, beat: u64) {
         let idx = self.cur_idx;
         if let Some(f) = self.progress_fd.as_mut() {
